@@ -372,7 +372,8 @@ def harness(cx, cfg):
         alleq = sym_and(*[x == y for n in a.dtype.names for x, y in zip(la[n][0], lb[n][0])])
         cx.check("compare_arrays is True exactly when all common fields are element-wise equal", alleq if r else sym_not(alleq))
         # a table with a missing field: ignored by default, a difference otherwise
-        sub = nu.extract_fields(a, list(a.dtype.names)[:2])
+        # a table that lacks the last field (layouts have at least two fields)
+        sub = nu.extract_fields(a, list(a.dtype.names)[:-1])
         cx.check("compare_arrays ignores missing fields by default", nu.compare_arrays(a, sub) is True or nu.compare_arrays(a, sub) == True)
         cx.check("compare_arrays(ignore_missing=False) reports a missing field", not nu.compare_arrays(a, sub, ignore_missing=False))
         # the same cells laid out in another shape are not the same table
@@ -643,7 +644,7 @@ def replay(cand):
         flat[-1] = flat[-1] + 1 if c[n0].dtype.kind not in "SU" else "zz"
         if nu.compare_arrays(a, c):
             return {"reproduced": True, "key": "compare", "what": "compare_arrays misses a difference in the last element of field %r" % n0}
-        sub = nu.extract_fields(a, list(a.dtype.names)[:2])
+        sub = nu.extract_fields(a, list(a.dtype.names)[:-1])
         if not nu.compare_arrays(a, sub) or nu.compare_arrays(a, sub, ignore_missing=False):
             return {"reproduced": True, "key": "compare", "what": "compare_arrays handling of missing fields"}
         if a.ndim == 2 and nu.compare_arrays(a, a.copy().reshape(-1)):
